@@ -118,4 +118,21 @@ def signingRoot (H : ByteArray → ByteArray) (objectRoot domain : ByteArray) : 
 
 def DOMAIN_BEACON_PROPOSER : ByteArray := ByteArray.mk #[0, 0, 0, 0]
 
+instance : DecidableEq ByteArray := fun a b =>
+  if h : a.data = b.data then isTrue (by cases a; cases b; simp_all) else isFalse (by intro e; exact h (by rw [e]))
+
+/-- the 64 bytes hashed by `compute_fork_data_root` -/
+def forkDataInput (v : UInt32) (gvr : ByteArray) : ByteArray := versionBytes v ++ zeros 28 ++ gvr
+
+/-! ## `BeaconBlockEnvelope.VerifySignatureVersioned` / `VerifySignature` (common/block.go)
+
+`bls msg` stands for `blsu.Verify(pub, msg, sig)` for the envelope's signature and the expected proposer's
+key, including the two deserialisation failures (`false`). The check, in the order of the source:
+proposer index, fork-digest sanity check, BLS over `compute_signing_root(block_root, domain)`. -/
+def verifyEnvelopeVersioned (H : ByteArray → ByteArray) (bls : ByteArray → Bool) (version : UInt32)
+    (gvr : ByteArray) (envProposer proposer : UInt64) (envDigest blockRoot : ByteArray) : Bool :=
+  envProposer == proposer &&
+  (decide (forkDigest H version gvr = envDigest)) &&
+  bls (signingRoot H blockRoot (computeDomain H DOMAIN_BEACON_PROPOSER version gvr))
+
 end Zrnt.Config
